@@ -572,6 +572,7 @@ fn cmd_mux(c: &Value) -> Value {
     let started = guard(|| Mp4Writer::write_start(&mut m, &cfg));
     out["start"] = json!(cls(&started));
     let mut ended = "none";
+    let stop_on_io = c.get("stop_on_io").and_then(|x| x.as_bool()).unwrap_or(false);
     if let Ok(Ok(mut w)) = started {
         let mut stop = false;
         for op in c["ops"].as_array().cloned().unwrap_or_default().iter() {
@@ -592,6 +593,7 @@ fn cmd_mux(c: &Value) -> Value {
                 let tid = s[0].as_u64().unwrap_or(0) as u32;
                 let r = guard(|| w.write_sample(tid, &sample));
                 if r.is_err() { stop = true; }
+                if stop_on_io && cls(&r) == "io" { stop = true; }
                 statuses.push(json!(cls(&r)));
             } else if op.get("end").is_some() {
                 let r = guard(|| w.write_end());
